@@ -360,3 +360,102 @@ func ruleOrSplit(p *Prog, r *Report) {
 func init() {
 	register("C02", "", ruleBoundText, ruleOrSplit)
 }
+
+// ---- R-ROUTE: nothing routes a comparator away before its operator is looked at ------------------------
+//
+// A single-constraint parser tries its shorthands first and the operator table after them. A shorthand
+// test of the form strings.Contains(text, K) that is evaluated before the operator table must use a K
+// that no version text can contain (a character outside digits, letters, '.', '+', '-'); otherwise a
+// comparator whose bound happens to contain K (">=1.0.0-next.1" contains "x") is taken for the
+// shorthand and rejected or mis-read.
+func ruleRoute(p *Prog, r *Report) {
+	n := 0
+	for _, e := range p.Ecos {
+		for _, fn := range p.Representatives(sortFns(p, p.RepoReachable(e.NewRng))) {
+			if fn.Pkg == nil || fn.Pkg.Pkg != e.VerT.Obj().Pkg() {
+				continue
+			}
+			// the operator table test: HasPrefix(text, op) with op from a constant operator list
+			var opBlock *ssa.BasicBlock
+			var text ssa.Value
+			for _, b := range fn.Blocks {
+				for _, ins := range b.Instrs {
+					c, ok := ins.(*ssa.Call)
+					if !ok {
+						continue
+					}
+					f := c.Call.StaticCallee()
+					if f == nil || extName(f) != "strings.HasPrefix" {
+						continue
+					}
+					ops, _ := constArrayOf(c.Call.Args[1])
+					k := 0
+					for _, o := range ops {
+						if _, ok := opTable[o]; ok {
+							k++
+						}
+					}
+					if k >= 2 && opBlock == nil {
+						opBlock, text = b, c.Call.Args[0]
+					}
+				}
+			}
+			if opBlock == nil {
+				continue
+			}
+			// Contains tests on the same text evaluated before the operator table
+			for _, b := range fn.Blocks {
+				for _, ins := range b.Instrs {
+					c, ok := ins.(*ssa.Call)
+					if !ok {
+						continue
+					}
+					f := c.Call.StaticCallee()
+					if f == nil || c.Call.Args[0] != text || b == opBlock || !b.Dominates(opBlock) {
+						continue
+					}
+					kind := extName(f)
+					if kind != "strings.Contains" && kind != "strings.HasPrefix" {
+						continue
+					}
+					ks, ok := constString(c.Call.Args[1])
+					if !ok {
+						continue
+					}
+					n++
+					versionChar := func(ch rune) bool {
+						return ch >= '0' && ch <= '9' || ch >= 'a' && ch <= 'z' || ch >= 'A' && ch <= 'Z' || ch == '.' || ch == '+' || ch == '-'
+					}
+					if kind == "strings.HasPrefix" {
+						key := fmt.Sprintf("%s: shorthand test HasPrefix(·, %q) before the operator table", p.FnKey(fn), ks)
+						first := []rune(ks)
+						if len(first) > 0 && !versionChar(first[0]) || len(first) > 0 && (first[0] == '+' || first[0] == '-' || first[0] == '.') {
+							r.Ok("R-ROUTE", key, p.Pos(c.Pos()), "no comparator and no version starts with this text")
+						} else {
+							r.Bad("R-ROUTE", key, p.Pos(c.Pos()), fmt.Sprintf("a version can start with %q: an exact-version constraint is taken for the shorthand", ks))
+						}
+						continue
+					}
+					key := fmt.Sprintf("%s: shorthand test Contains(·, %q) before the operator table", p.FnKey(fn), ks)
+					safe := false
+					for _, ch := range ks {
+						if !versionChar(ch) {
+							safe = true
+						}
+					}
+					if safe {
+						r.Ok("R-ROUTE", key, p.Pos(c.Pos()), "the tested text contains a character no version can contain")
+					} else {
+						r.Bad("R-ROUTE", key, p.Pos(c.Pos()), fmt.Sprintf("%q can occur inside a version (pre-release or build text): a comparator such as >=1.0.0-ne%st.1 is routed to the shorthand parser before its operator is seen", ks, ks))
+					}
+				}
+			}
+		}
+	}
+	r.Floor("R-ROUTE", 4)
+	_ = n
+}
+
+func init() {
+	register("C02", "", ruleRoute)
+}
